@@ -218,6 +218,14 @@ func (a SortableMsgs) Less(i int, j int) bool {
 	aiLoc := ai.Data.Location
 	ajLoc := aj.Data.Location
 	if aiLoc == nil || ajLoc == nil {
+		if aiLoc == nil && ajLoc == nil {
+			// Messages without a location must still be ordered deterministically
+			// (they may have been logged by goroutines running in parallel)
+			if ai.Kind != aj.Kind {
+				return ai.Kind < aj.Kind
+			}
+			return ai.Data.Text < aj.Data.Text
+		}
 		return aiLoc == nil && ajLoc != nil
 	}
 	if aiLoc.File != ajLoc.File {
